@@ -23,6 +23,10 @@ EXPLANATION = (
     "ordering operators test the sign of (self-other).amount with the matching comparison and subtraction/negation are "
     "built from addition (R12.4), __eq__ compares like with like (R12.5). Not decided: float rounding of the results, "
     "string parsing of amounts (regex), Length.__imul__."
+    ' R12.6: every method of Length that receives ppi / relative_length / font_size / font_height / viewbox'
+    ' under that name and calls another method of Length taking the same name must pass its own parameter in'
+    ' that slot (a dropped slot is reported only when the receiver is self: another Length object is resolved'
+    ' in its own right).'
 )
 TECHNIQUE = (
     "static analysis (no execution): dispatch-table extraction of every (operator, unit, unit) cell with exact rational unit ratios compared with the CSS absolute-unit table; equality table"
